@@ -157,10 +157,15 @@ type C08Cell struct {
 	Entries   int    `json:"entries"`
 	Consumers int    `json:"consumers"`
 	Bound     int    `json:"bound"`
+	CancelAny bool   `json:"cancel_any,omitempty"`
 }
 
 func (c C08Cell) Name() string {
-	return fmt.Sprintf("%s|limit=%d|passes=%d|E=%d|consumers=%d", c.Kind, c.Limit, c.Passes, c.Entries, c.Consumers)
+	s := fmt.Sprintf("%s|limit=%d|passes=%d|E=%d|consumers=%d", c.Kind, c.Limit, c.Passes, c.Entries, c.Consumers)
+	if c.CancelAny {
+		s += "|cancel-any"
+	}
+	return s
 }
 
 func bound(limit, passes, e int) int {
@@ -196,7 +201,10 @@ func (r *c08run) scenario(x *vs.X) func(end, msg string) error {
 	n := bound(c.Limit, c.Passes, c.Entries)
 	if n < 0 {
 		d.StopAfter = 3*c.Entries + 1
+	} else {
+		d.StopAfter = n + 2 // only reached by a provider that over-delivers
 	}
+	d.CancelAny = c.CancelAny
 	r.drv = d
 	vs.Go("driver", func() { d.Start(ctx, cancel) })
 	return func(end, msg string) error {
@@ -217,6 +225,9 @@ func (r *c08run) check(end, msg string, n int) error {
 	if d.ConsPanic != "" {
 		return fmt.Errorf("PANIC: Acquire panicked: %s", d.ConsPanic)
 	}
+	if n >= 0 && len(d.Items) > n {
+		return fmt.Errorf("COUNT: delivered %d items (and counting), min over the non-zero bounds (limit=%d, passes x entries=%dx%d) is %d", len(d.Items), c.Limit, c.Passes, c.Entries, n)
+	}
 	if end == vs.EndCap {
 		return nil // reported as a cap (exhaustive:false) by the runner, not a verdict
 	}
@@ -234,7 +245,13 @@ func (r *c08run) check(end, msg string, n int) error {
 	for i, it := range d.Items {
 		got[i] = fmt.Sprint(it)
 	}
-	if n >= 0 {
+	if c.CancelAny {
+		// cancelled at an arbitrary point: nobody may stay blocked (checked above), nothing beyond the bounds,
+		// what was delivered is a prefix of the file order, the result is nil or the cancellation
+		if !cancelLike(d.RunErr) {
+			return fmt.Errorf("RUNERR: cancelled provider returned %v", d.RunErr)
+		}
+	} else if n >= 0 {
 		if len(got) != n {
 			return fmt.Errorf("COUNT: delivered %d items %v, min over the non-zero bounds (limit=%d, passes x entries=%dx%d) is %d; run error: %v", len(got), got, c.Limit, c.Passes, c.Entries, n, d.RunErr)
 		}
@@ -252,7 +269,7 @@ func (r *c08run) check(end, msg string, n int) error {
 			return fmt.Errorf("RUNERR: cancelled provider returned %v", d.RunErr)
 		}
 	}
-	if d.AfterFalse {
+	if d.AfterFalse && !c.CancelAny {
 		return fmt.Errorf("END: Acquire returned ok=true after it had returned ok=false")
 	}
 	want := make([]string, len(got))
@@ -300,6 +317,10 @@ func c08cells(thorough bool) []C08Cell {
 							}
 						}
 						out = append(out, C08Cell{Kind: k.Name, Limit: limit, Passes: passes, Entries: e, Consumers: cons, Bound: b})
+						if cons == 1 && e == 2 && (limit == 0 || limit == 3) && passes <= 2 && !(unb && buffered) {
+							// a canceller thread: with one deviation the cancel lands at every scheduling point of the run
+							out = append(out, C08Cell{Kind: k.Name, Limit: limit, Passes: passes, Entries: e, Consumers: cons, Bound: 1, CancelAny: true})
+						}
 					}
 				}
 			}
@@ -380,8 +401,9 @@ func (c C14Cell) Name() string {
 }
 
 type c14run struct {
-	cell    C14Cell
-	preload bool
+	cell     C14Cell
+	preload  bool
+	deferred bool
 	drv     *Drv
 	cerr    error
 	stop    int
@@ -407,11 +429,12 @@ func (r *c14run) scenario(x *vs.X) func(end, msg string) error {
 	ctx, cancel := context.WithCancel(context.Background())
 	x.OnAbort(cancel)
 	x.Deadline = time.Now().Add(time.Hour)
-	d := &Drv{P: p, Consumers: 1, Release: true, Extract: extractHTTP, StopAfter: r.stop}
+	d := &Drv{P: p, Consumers: 1, Release: true, Extract: extractHTTP, StopAfter: r.stop, Deferred: r.deferred}
 	r.drv = d
 	vs.Go("driver", func() { d.Start(ctx, cancel) })
 	return func(end, msg string) error {
 		defer cancel()
+		d.Resolve()
 		if d.RunPanic != "" || d.ConsPanic != "" {
 			return fmt.Errorf("PANIC: %s %s", d.RunPanic, d.ConsPanic)
 		}
@@ -463,9 +486,10 @@ func runC14Cell(rn *runner, c C14Cell) (key string, verr error) {
 	if n < 0 {
 		stop = 3*e + 1
 	}
-	var runs [2]*c14run
-	for i, pre := range []bool{false, true} {
-		r := &c14run{cell: c, preload: pre, stop: stop}
+	var runs [4]*c14run
+	for i, pre := range []bool{false, true, false, true} {
+		// runs 2 and 3: every delivered ammo is kept and looked at only after the run (all in flight at once)
+		r := &c14run{cell: c, preload: pre, stop: stop, deferred: i >= 2}
 		v, _ := rn.explore(0, r.scenario)
 		if rn.e.HarnessErr {
 			return "HARNESS", v.Err
@@ -497,14 +521,14 @@ func runC14Cell(rn *runner, c C14Cell) (key string, verr error) {
 		}
 		return fmt.Sprint(r.drv.RunErr)
 	}
-	a, b := seq(runs[0]), seq(runs[1])
+	a := seq(runs[0])
 	// model (only where something can be delivered)
 	if e > 0 {
 		total := n
 		if n < 0 {
 			total = stop
 		}
-		for ri, got := range [][]Want{a, b} {
+		for ri, got := range [][]Want{a, seq(runs[1])} {
 			if len(got) != total {
 				return "COUNT", fmt.Errorf("COUNT: preload=%v delivered %d entries, model (filter by tag, then limit over delivered entries) gives %d; run ended: %s\n got %v", ri == 1, len(got), total, detail(runs[ri]), got)
 			}
@@ -518,21 +542,25 @@ func runC14Cell(rn *runner, c C14Cell) (key string, verr error) {
 			}
 		}
 	}
-	// differential
-	if len(a) != len(b) {
-		return "DIFF-SEQ", fmt.Errorf("DIFF-SEQ: preload off delivered %d entries, preload on %d\n off: %v\n on:  %v", len(a), len(b), a, b)
-	}
-	for i := range a {
-		if a[i] != b[i] {
-			return "DIFF-SEQ", fmt.Errorf("DIFF-SEQ: delivery %d differs: preload off %s, preload on %s", i, a[i], b[i])
+	// differential: preload on vs off, items looked at immediately vs all in flight
+	names := []string{"preload off", "preload on", "preload off, all items in flight", "preload on, all items in flight"}
+	for ri := 1; ri < 4; ri++ {
+		b := seq(runs[ri])
+		if len(a) != len(b) {
+			return "DIFF-SEQ", fmt.Errorf("DIFF-SEQ: %s delivered %d entries, %s %d\n %v\n %v", names[0], len(a), names[ri], len(b), a, b)
 		}
-	}
-	if end(runs[0]) != end(runs[1]) {
-		kind := "DIFF-END"
-		if e == 0 {
-			kind = "DIFF-END-NOMATCH"
+		for i := range a {
+			if a[i] != b[i] {
+				return "DIFF-SEQ", fmt.Errorf("DIFF-SEQ: delivery %d differs: %s: %s; %s: %s", i, names[0], a[i], names[ri], b[i])
+			}
 		}
-		return kind, fmt.Errorf("%s: the run ends differently: preload off -> %s (%s), preload on -> %s (%s); %d entries match the filter", kind, end(runs[0]), detail(runs[0]), end(runs[1]), detail(runs[1]), e)
+		if end(runs[0]) != end(runs[ri]) {
+			kind := "DIFF-END"
+			if e == 0 {
+				kind = "DIFF-END-NOMATCH"
+			}
+			return kind, fmt.Errorf("%s: the run ends differently: %s -> %s (%s), %s -> %s (%s); %d entries match the filter", kind, names[0], end(runs[0]), detail(runs[0]), names[ri], end(runs[ri]), detail(runs[ri]), e)
+		}
 	}
 	return "", nil
 }
